@@ -128,7 +128,7 @@ class SimFS:
         self.short_writes = short_writes
         self.buffer_size = buffer_size
         self.ctimes: dict = {}  # abspath -> ns, consulted by Path.stat
-        self.on_create = None  # callback(abspath) when a file is created (DiskCache ctimes)
+        self.on_open_write = None  # callback(abspath, existed) when a file is opened for writing (ctimes)
         sim.fs = self
         install()
 
@@ -217,8 +217,8 @@ def _open(file, mode="r", buffering=-1, encoding=None, errors=None, newline=None
     raw_mode = "w" if "w" in mode else ("a" if "a" in mode else "x")
     existed = os.path.lexists(p)
     raw = SimRaw(fs, p, rel, raw_mode)
-    if not existed and fs.on_create is not None:
-        fs.on_create(p)
+    if fs.on_open_write is not None:
+        fs.on_open_write(p, existed)
     bs = fs.buffer_size or io.DEFAULT_BUFFER_SIZE
     if buffering == 0:
         if "b" not in mode:
